@@ -97,8 +97,11 @@ class Disabled(Exception):
 class World(object):
     def __init__(self, cfg, folder=None, predict_rules=False):
         ns = env.load()
+        env.reset_process_state()
         self.ns = ns
         self.cfg = cfg
+        self.observer = None  # callable(world) run by the 'obs' letter (set by the check)
+        self.last_obs = None  # argument of the last 'resolve' letter
         self.TraphException = ns["TraphException"]
         self.predict_rules = predict_rules
         self.folder = None
@@ -172,7 +175,7 @@ class World(object):
             tr.exc_kind = "other"
             rep = None
         self.ntrans += 1
-        self.last_life = kind in ("reopen", "clear")
+        self.last_life = kind in ("reopen", "clear", "obs", "resolve")
         if self.last_life:
             self.nlife += 1
         tr.ret = rep
@@ -295,6 +298,13 @@ class World(object):
         elif mode == "wrongid":
             use, arg = pl, wid + 1000
             tr.expect_refusal = True
+        elif mode == "plusforeign":
+            # the webentity's own prefixes followed by one it does not own: refused as a
+            # whole, nothing may have been unset
+            foreign = [p for p, w_ in sorted(m.prefix.items()) if w_ != wid]
+            extra = foreign[0] if foreign else (pl[0] + b"p:nobody|")
+            use, arg = pl + [extra], wid
+            tr.expect_refusal = True
         else:
             raise ValueError(mode)
 
@@ -383,6 +393,43 @@ class World(object):
         tr.extra["post"] = post
         return lambda: self.t.remove_webentity_creation_rule(anchor)
 
+    # read letters ---------------------------------------------------------
+    def _op_obs(self, op, tr):
+        """'Observe': the check's own queries are issued here, in the middle of the history,
+        on the same object (their answers are discarded). Kept apart in the state key like a
+        reopen: it leaves the bytes alone but may change what the object holds in RAM."""
+        if self.observer is None:
+            raise Disabled()
+
+        def call():
+            self.observer(self)
+            return True
+
+        return call
+
+    def _op_resolve(self, op, tr):
+        """A single resolution query in the middle of the history; the state oracle of C04
+        re-issues the same query first afterwards (single-entry memo pattern)."""
+        _, lru = op
+
+        def call():
+            self.last_obs = lru
+            try:
+                self.t.retrieve_webentity(lru)
+            except self.TraphException:
+                pass
+            try:
+                self.t.retrieve_prefix(lru)
+            except self.TraphException:
+                pass
+            try:
+                self.t.get_potential_prefix(lru)
+            except self.TraphException:
+                pass
+            return True
+
+        return call
+
     # lifecycle -------------------------------------------------------------
     def _op_reopen(self, op, tr):
         if self.folder is None:
@@ -417,6 +464,7 @@ def build(cfg, hist, folder=None, predict_rules=False, on_trans=None, before_las
     check's own queries on the pre-state, so that anything a query caches in RAM is warm when
     the last write happens: 'query; write; query' on one object)."""
     w = World(cfg, folder=folder, predict_rules=predict_rules)
+    w.observer = before_last
     tr = None
     try:
         for i, op in enumerate(hist):
